@@ -46,6 +46,10 @@ func runC04(c *core.Ctx) {
 		runC04SlowHandler(c)
 		return
 	}
+	if t.Bias(1, 12, "handler-view") {
+		runC04HandlerView(c)
+		return
+	}
 	ka := []time.Duration{100 * time.Millisecond, time.Second}[t.Choose(2, "ka")]
 	dMul := []int{2, 5, 0, -1}[t.Pick([]int{4, 3, 2, 1}, "dmul")] // -1 = leave the default
 	fMul := []int{3, 10, 0}[t.Pick([]int{4, 3, 2}, "fmul")]
